@@ -74,6 +74,12 @@ def run(ctx):
     ctx.require(len(points) >= 19 and len(topos) >= 16, "crash point x topology table incomplete")
     ctx.require(any(s.get("fullerr") for s in rows), "no scenario ran with an unwritable stderr")
 
+    # arguments whose Debug impl panics: a call that succeeds never needs them rendered (engine C scenario)
+    from . import engine_c
+    nr, v_nr = engine_c.run_sched(ctx, "c12", 16)
+    engine_c.report(ctx, v_nr, "C11", "NoRender arguments")
+    ctx.require(nr["stats"].get("norender_scenarios", 0) > 0, "the NoRender scenario did not run")
+
     # after a *caught* user panic the mock stays usable and verification reflects the matched calls (engine A)
     cases = 300_000 if ctx.tier == "quick" else 8_000_000
     workers, viols, summary, _ = engine_a._run_config(ctx, "std", cases)
